@@ -1305,6 +1305,10 @@ def _absolute_successor(name: Name, origin: Name, prefix_ok: bool) -> Name:
             # skipped the most minimal successor, namely "[".
             if octet == _AT_SIGN_VALUE:
                 octet = _LEFT_SQUARE_BRACKET_VALUE
+            elif 0x41 <= octet <= 0x5A:
+                # An uppercase letter compares as its lowercase equivalent, so the
+                # next greater octet is the one after the lowercase letter.
+                octet += 0x21
             else:
                 octet += 1
             octets[i] = octet
